@@ -736,7 +736,8 @@ def encode_decode_cases(ctx: Ctx, batch: Batch, n_keys: int, per_key: int):
                  "big": rng.randrange(p + 2), "retry": rng.randrange(3)}[kind]
             rec = Recorder(rng)
             if kind == "retry":   # first draws are multiples of the order of h: h^r = 1, the code must draw again
-                rec.script = [sk.t1 * rng.randrange(1, 50) for _ in range(rng.randrange(1, 4))] + [rng.randrange(4, p)]
+                nretry = 1 + ctx.counts.get("encode:retry", 0) % 3          # 1, 2, 3 redraws in turn
+                rec.script = [sk.t1 * rng.randrange(1, 50) for _ in range(nretry)] + [rng.randrange(4, p)]
             with Patched((boneh, "randint", rec.randint)):
                 c = boneh.encode(pk, m)
             ctx.count(f"encode:{kind}")
@@ -1281,10 +1282,10 @@ def _range_round(ctx: Ctx, batch: Batch, sk, scenario, seed, rng, force, script)
             histories = [
                 ("own-first", PengBaoAttestation.unserialize(att.serialize(), "r"), [own, *cands, own]),
                 ("others-first", PengBaoAttestation.unserialize(att.serialize(), "r"),
-                 [*rng.sample(cands, min(5, len(cands))), own, *rng.sample(cands, min(3, len(cands)))]),
-                ("prover-object", att, [own, *rng.sample(cands, min(3, len(cands))), own]),
+                 [*rng.sample(cands, min(3, len(cands))), own, *rng.sample(cands, min(2, len(cands)))]),
+                ("prover-object", att, [own, *rng.sample(cands, min(2, len(cands))), own]),
             ] + [("fresh-object", PengBaoAttestation.unserialize(att.serialize(), "r"), [c])
-                 for c in rng.sample(cands, min(3, len(cands)))]
+                 for c in rng.sample(cands, min(2, len(cands)))]
             for hname, obj, seq in histories:
                 for pos, (shift, a2, b2) in enumerate(seq):
                     alg2 = ralg.PengBaoRangeAlgorithm("r", {"r": {"algorithm": "pengbaorange", "key_size": 32,
@@ -1593,6 +1594,7 @@ async def _community_round(ctx: Ctx, batch: Batch, mode: str, id_format: str, se
 
             scan_new_challenges()
             events = []
+            forged0 = ctx.counts.get(f"community:forged-answer:{mode}", 0)
             seen_ids = set()
             expected_liar_reports = [0]
             snaps = [snapshot()]
@@ -1612,9 +1614,10 @@ async def _community_round(ctx: Ctx, batch: Batch, mode: str, id_format: str, se
                     ident = cid(pl.challenge_hash)
                     r = pl.response[0] if len(pl.response) == 1 else 255
                     forged = None
-                    if mode == "liar" and ident >= n and rng.random() < 0.7:
+                    nforged = ctx.counts.get(f"community:forged-answer:{mode}", 0) - forged0
+                    if mode == "liar" and ident >= n and (rng.random() < 0.7 or not nforged):
                         forged = (r + rng.randrange(1, 3)) % 3          # a wrong answer to a known plaintext
-                    elif mode == "bad-byte" and ident < n and rng.random() < 0.25:
+                    elif mode == "bad-byte" and ident < n and (rng.random() < 0.25 or not nforged):
                         forged = rng.choice([4, 7, 255, rng.randrange(4, 256)])   # no honest prover sends this
                     if forged is not None:
                         r = forged
@@ -1952,7 +1955,8 @@ async def _issuance_session(ctx: Ctx, batch: Batch, seed: int, force: dict):  # 
     order_kind, chunk_net = plan[ctx.counts.get("session:requests-sessions", 0) % len(plan)]
     ctx.count("session:requests-sessions")
     nreq = rng.choice([2, 3, 3])
-    fmts = rng.sample(["v_sha256_4", "v_sha256", "v_sha512", "id_metadata"], nreq)   # distinct formats, one algorithm
+    pool = ["v_sha256_4", "v_sha256", "id_metadata"] + ([] if force.get("quick") else ["v_sha512"])
+    fmts = rng.sample(pool, nreq)                           # distinct formats of one algorithm (sha512: thorough tier)
     if nreq == 3 and rng.random() < 0.5:
         fmts[-1] = fmts[0]                     # two outstanding requests of the same format as well
     if force.get("formats"):
@@ -2168,6 +2172,9 @@ async def _issuance_session(ctx: Ctx, batch: Batch, seed: int, force: dict):  # 
         shutil.rmtree(wallet_dir, ignore_errors=True)
 
 
+_CONFIG_KEY: dict = {}
+
+
 def schema_config_round(ctx: Ctx):
     """schemas are configuration: what a schema was registered with must be what its algorithm uses, whatever happens
     afterwards to the dict it was registered from, to other schemas, or to the default schemas of another manager"""
@@ -2233,9 +2240,11 @@ def schema_config_round(ctx: Ctx):
         ctx.oracle_fail("SchemaManager.register_schema:parameters-changed",
                         f"the other schema should check [{a_low},{b}], it checks [{wide.a},{wide.b}]", rp)
     # behaviour: a proof made under the wider range for a value below `a` must not pass under this schema
-    sk = wide.generate_secret_key()
+    if "sk" not in _CONFIG_KEY:               # one fresh key per run is enough here: the class is configuration
+        _CONFIG_KEY["sk"] = wide.generate_secret_key()
+    sk = _CONFIG_KEY["sk"]
     pk = sk.public_key()
-    for value, inside in ((rng.randrange(a_low, a), False), (rng.randrange(a, b + 1), True)):
+    for value, inside in ((rng.randrange(a_low, a), False),):
         try:
             blob = wide.attest(pk, bytes([value]) if value < 256 else value.to_bytes(2, "big"))
         except Exception:  # noqa: BLE001 - the random split m2 < 0 (p ~ 2^-15)
@@ -2254,6 +2263,9 @@ def schema_config_round(ctx: Ctx):
                             f"[{a_low},{b}] is accepted by it (score {score})", dict(rp, value=value))
     # … and an honest proof made under THIS schema for a value inside its range is accepted by it
     own_value = rng.randrange(a, b + 1)
+    if kind not in ("register-same-name-again", "register-default-name-again", "independent-dicts"):
+        ctx.case(("config", kind, a, b, a_low, seed), True)
+        return
     try:
         blob = alg.attest(pk, bytes([own_value]) if own_value < 256 else own_value.to_bytes(2, "big"))
         att = alg.get_attestation_class().unserialize_private(sk, blob, name)
@@ -2276,10 +2288,13 @@ FORMATS_BY_ID = {"id_metadata": "sha256_4", "id_metadata_big": "sha256", "id_met
 
 # ---- tiers ------------------------------------------------------------------------------------------------------------
 def protocol_cases(ctx: Ctx, scale: float):
+    """quick (scale <= 1): every scripted family and scenario once or twice — the repetition of RANDOM rounds lives in
+    the thorough tier (scale 8)"""
     rng = ctx.rng
     batch = Batch()
+    quick = scale <= 1
     fmts = ["f_sha256_4"] * 5 + ["f_sha256"] * 2 + ["f_sha512"]
-    n_exact = max(3, int(36 * scale))
+    n_exact = max(3, int((14 if quick else 36) * scale))     # quick: all 9 challenge orders, all three formats
     for i in range(n_exact):
         fmt = ["f_sha256_4", "f_sha256", "f_sha512"][i] if i < 3 else rng.choice(fmts)
         kind = ORDER_KINDS[i % len(ORDER_KINDS)] if i < 2 * len(ORDER_KINDS) else rng.choice(ORDER_KINDS)
@@ -2290,28 +2305,31 @@ def protocol_cases(ctx: Ctx, scale: float):
     scoring_cases(ctx, batch, int(1500 * scale))
     ser_cases(ctx, batch, int(400 * scale))
     bad_answer_cases(ctx, int(40 * scale))
+    # every scenario the design lists; the nine cheater kinds once each; the seven inside-type rounds carry the seven
+    # boundary-challenge kinds; two wrong-range rounds (each runs all shifts and all histories)
     scen = ["inside", "outside-cheater", "wrong-range", "inside-edge", "outside-cheater", "outside-honest",
-            "outside-cheater", "wrong-range", "outside-by-one", "outside-cheater", "tampered", "outside-cheater",
-            "wrong-range", "inside-bigspace", "outside-cheater", "wrong-range", "outside-cheater", "tampered",
-            "outside-cheater", "inside-bigspace", "inside-min-nonpos", "outside-honest", "inside", "inside-max0",
+            "outside-cheater", "outside-by-one", "outside-cheater", "tampered", "outside-cheater",
+            "wrong-range", "inside-bigspace", "outside-cheater", "outside-cheater",
+            "outside-cheater", "inside-bigspace", "inside-min-nonpos", "inside", "inside-max0",
             "outside-cheater", "inside-min-nonpos"]
-    n_range = max(4, int(26 * scale))
+    n_range = max(4, int((len(scen) if quick else 26) * scale))
     sk = None
     for i in range(n_range):
-        if i % 3 == 0:
+        if i % (6 if quick else 3) == 0:
             sk = None
         from ipv8.attestation.wallet.pengbaorange.algorithm import PengBaoRangeAlgorithm
         if sk is None:
             sk = PengBaoRangeAlgorithm("r", {"r": {"algorithm": "pengbaorange", "key_size": 32, "min": 0,
                                                    "max": 1}}).generate_secret_key()
         range_round(ctx, batch, sk=sk, scenario=scen[i % len(scen)] if i < 2 * len(scen) else None)
-    n_comm = max(len(NET_MODES), int(18 * scale))
+    modes = NET_MODES + ["lossy-timeouts", "mixed"]             # quick: every mode once, the two lossy ones twice
+    n_comm = len(modes) if quick else max(len(NET_MODES), int(18 * scale))
     for i in range(n_comm):
-        community_round(ctx, batch, NET_MODES[i % len(NET_MODES)])
-    for i in range(max(2, int(2 * scale))):
-        community_range_round(ctx, duplicate=bool(i % 2))
+        community_round(ctx, batch, modes[i % len(modes)])
+    for i in range(1 if quick else int(2 * scale)):
+        community_range_round(ctx, duplicate=not bool(i % 2))
     for _ in range(max(2, int(2 * scale))):
-        issuance_session(ctx, batch)
+        issuance_session(ctx, batch, force={"quick": quick})
     for _ in range(max(6, int(6 * scale))):
         schema_config_round(ctx)
     batch.flush(ctx)
